@@ -1155,6 +1155,12 @@ func (cfg *Config) getChallengeInfo(ctx context.Context, identifier string) (Cha
 		return Challenge{}, false, fmt.Errorf("decoding challenge token file %s (corrupted?): %v", tokenKey, err)
 	}
 
+	// storage keys are sanitized, so distinct identifiers can map to the same key;
+	// make sure the challenge we loaded really is for the requested identifier
+	if !strings.EqualFold(challengeKey(chalInfo), identifier) {
+		return Challenge{}, false, fmt.Errorf("no information found to solve challenge for identifier: %s", identifier)
+	}
+
 	return Challenge{Challenge: chalInfo}, true, nil
 }
 
